@@ -15,6 +15,7 @@ CONSTANTS Layouts,    \* set of layouts, each a sequence of [step |-> s, n |-> n
           Vals,       \* integers that may be written
           MaxBatch,   \* maximal batch length
           Ticks,      \* clock increments; the token 0 stands for MaxRet+1 (longer than any retention)
+          FutureMax,  \* batch points may be dated up to now + FutureMax (the library accepts them)
           ValUnit,    \* tagged values are multiples of this (lcm of the averaging divisors)
           ValMode,    \* "free": any value of Vals per point; "tagged": value determined by (time, supply index)
           WithSync,   \* TRUE: Sync / Abandon actions enabled
@@ -58,7 +59,7 @@ Init == /\ cfg \in Configs
 (* Domains of the write actions (the part of the API the properties speak  *)
 (* about; see spec/UNSPECIFIED.md for what is left out and why)            *)
 (***************************************************************************)
-TimeDom == (now - MaxRet(cfg) - 1)..now
+TimeDom == (now - MaxRet(cfg) - 1)..(now + FutureMax)
 \* tagged values: distinct per (interval, supply index), both signs, multiples of ValUnit
 Tag(t, i) == Num(ValUnit * ((t - T0 + 40) * 4 + i) * (IF t % 2 = 0 THEN 1 ELSE -1))
 PointDom == IF ValMode = "free"
